@@ -5,7 +5,8 @@
    leaves 0 int (CastMarshaller)   1 Decimal (ToStringMarshaller)   2 Literal[1]   3 Any (NoOpMarshaller) *)
 From Coq Require Import List Arith Bool PeanoNat.
 Import ListNotations.
-Require Import TL.Model.Core TL.Model.CoreC06.
+Require Import TL.Model.Core.
+Require Import TL.Model.CoreC06.
 
 Definition toy_prim (a : nat) : bool :=
   match a with 0 | 1 | 2 | 4 | 5 | 7 => true | _ => false end.
@@ -51,7 +52,8 @@ Definition toy_E : env := fun c =>
   match c with
   | 0 => Some (NClass {| cflavour := FDataclass;
                          cfields := [ {| fname := 0; fty := TUnion [TNone; TLeaf 1]; fdefault := None |};
-                                      {| fname := 1; fty := TSeq KList (TLeaf 0); fdefault := None |} ] |})
+                                      {| fname := 1; fty := TSeq KList (TLeaf 0); fdefault := None |} ];
+                         crequired := [] |})
   | _ => None
   end.
 Definition toy_R (c : nat) : bool := Nat.eqb c 0.
